@@ -44,7 +44,7 @@ class Sids:
         return self.c[k], True
 
 
-def lifecycle_history(rng, n, insts, tc, with_find=True, with_sub=False, ann0=None, allow_stop_twice=True, find_share=0.3):
+def lifecycle_history(rng, n, insts, tc, with_find=True, with_sub=False, ann0=None, allow_stop_twice=True, find_share=0.3, defer_share=0.0):
     """random start/stop/announce/find(/subscribe) history; returns sched"""
     sids = Sids()
     started = False
@@ -52,6 +52,7 @@ def lifecycle_history(rng, n, insts, tc, with_find=True, with_sub=False, ann0=No
     sched = []
     multi_rr = tc["rrMin"] != tc["rrMax"]
     cl_t = -1
+    hold = None
     pool = []
     # the peers of a history: two IPv4 hosts, or (one history in five) two peers that differ only in their IPv6 scope id
     peers = ["a4", "a5"] if rng.random() < 0.2 else ["a1", "a2"]
@@ -59,7 +60,7 @@ def lifecycle_history(rng, n, insts, tc, with_find=True, with_sub=False, ann0=No
         r = rng.random()
         if t == cl_t and r < 0.44:
             r = 0.9      # the connection loss is applied one iteration later: no life-cycle call in that window
-        if started and with_find and not with_sub and r < 0.10:
+        if started and with_find and not with_sub and r < 0.10 and (t, j) != hold:
             # several requests from ONE requester whose answers are still pending when the offer is withdrawn
             src = rng.choice(peers)
             for _ in range(rng.choice([2, 2, 3])):
@@ -77,8 +78,15 @@ def lifecycle_history(rng, n, insts, tc, with_find=True, with_sub=False, ann0=No
                 if rng.random() < 0.5:      # ... and offered again at once: the instance is back in its initial wait phase
                     sched.append({"t": t, "j": j, "op": "ann_start"})
                     started = True
+        elif r < 0.32 and (t, j) == hold:
+            pass          # (a queued life-cycle call is pending at this loop position: no second one next to it)
         elif r < 0.32:
-            if started:
+            if started and defer_share and rng.random() < defer_share:
+                # the application queues the stop with call_soon: it runs among the library's callbacks of the next iteration
+                sched.append({"t": t, "j": j, "op": "defer", "e": {"op": "ann_stop"}})
+                started = False
+                hold = (t, j)
+            elif started:
                 sched.append({"t": t, "j": j, "op": "ann_stop"})
                 started = False
             elif allow_stop_twice and rng.random() < 0.15:
@@ -86,6 +94,8 @@ def lifecycle_history(rng, n, insts, tc, with_find=True, with_sub=False, ann0=No
             else:
                 sched.append({"t": t, "j": j, "op": "ann_start"})
                 started = True
+        elif r < 0.44 and (t, j) == hold:
+            pass
         elif r < 0.40 and len(insts) > 1:
             i = rng.choice(insts)
             if i in ann:
@@ -262,7 +272,8 @@ def run(seed, count, length, insts, variants, monitor_cfg_extra=None, **kw):
         ann0 = insts if rng.random() < 0.7 else insts[:1]
         sched = lifecycle_history(rng, rng.randint(2, length), insts, tc, ann0=ann0,
                                   with_find=kw.get("with_find", True), with_sub=kw.get("with_sub", False),
-                                  allow_stop_twice=kw.get("stop_twice", True), find_share=kw.get("find_share", 0.3))
+                                  allow_stop_twice=kw.get("stop_twice", True), find_share=kw.get("find_share", 0.3),
+                                  defer_share=kw.get("defer_share", 0.0))
         rand = [rng.choice([0, 1, 2, 3]) for _ in range(60)]
         ev, missed = annenv.run_schedule(sched, tc, insts, ann0=ann0, rand=list(rand))
         cfg = annenv.mon_cfg(tc, insts, ann0)
